@@ -181,6 +181,15 @@ func newWorldWithState(b *runner.Batch, n int, set world.Set, containers int, sn
 					return err
 				}
 			}
+			// accounts whose first address byte equals a storage prefix byte of the contract ('a' for accounts), or an
+			// extreme value: a migration walking raw keys must not mistake them for something else (seeded change C16-8)
+			for i, first := range []byte{'a', 'a', 0x00, 0xff, 't'} {
+				h := util.Uint160{first, byte(i + 1), byte(r.IntN(256))}
+				if err := ok(w.Invoke(A, w.H("balance"), "mint", h, int64(6000+i), []byte{1}), "mint"); err != nil {
+					return err
+				}
+			}
+			b.Hit("balance-account-beginning-with-a-prefix-byte")
 			if err := ok(w.Invoke(A, w.H("balance"), "lock", []byte{1}, e.users[0].ScriptHash(), util.Uint160{0xcc, 1}, int64(100), int64(50)), "lock"); err != nil {
 				return err
 			}
